@@ -239,7 +239,7 @@ PROPS["C20"] = {
     "level_text": "Proved (Kani, every non-NaN f32): nearest(v, CUBE), nearest(v, GREYS) and nearest(v, [0,.33,.66,1]) return an arg-min of |v - table[j]| in f32 arithmetic; the tables are strictly increasing and every entry is the linear-light value of the xterm level it stands for (0,95,..,255; 8+10k) to within 1e-6 "
                   "(expected values transcribed from the sRGB transfer function evaluated in double precision); "
                   "the grey level is monotone in the luminance. That per-channel nearest + nearest-to-mean + the final distance comparison give the global optimum over the 240 entries (separability), "
-                  "Proved (Kani, every colour in [0,1]^3, all roles; nearest and LinColor::distance replaced by recording stubs with free answers): color_sgr_encode looks the three channels up in the cube table and their mean in the grey table, compares exactly the grey and the cube candidate, and emits 232 + k for the grey answer when it is reported strictly closer, 16 + 36r + 6g + b otherwise (thorough: the same with the real nearest). The sRGB->linear conversion, Color::luma and LinColor::distance (SIMD) themselves are NOT decided.",
+                  "Proved (Kani, every colour in [0,1]^3, all roles; nearest and LinColor::distance replaced by recording stubs with free answers): color_sgr_encode looks the three channels up in the cube table and their mean in the grey table, compares exactly the grey and the cube candidate, and emits 232 + k for the grey answer when it is reported strictly closer, 16 + 36r + 6g + b otherwise (thorough: the same with the real nearest); at true-colour depth exactly r, g, b follow 38|48|58;2 unchanged; at grey depth level k of the 4-level lookup is emitted as 30/90/37/97 (+10 background, nothing for underline). The sRGB->linear conversion, Color::luma and LinColor::distance (SIMD) themselves are NOT decided.",
     "level_note": "Partial: selection primitive, tables and the index arithmetic of the 256-colour arm. rasterize's conversion and metric (powf, SSE dpps) are assumed.",
     "assumptions": [
         "the 30 expected table values were computed outside the verifier (powf) and transcribed into the harness; that rasterize's LinColor::from implements the same sRGB transfer function is assumed",
